@@ -2,7 +2,7 @@
 open Model
 open Glue
 
-let ni s = n_of_int (int_of_string s)
+let ni s = n_of_decimal s
 let zi s = z_of_int (int_of_string s)
 let nati s = nat_of_int (int_of_string s)
 
